@@ -9,7 +9,7 @@ head = subprocess.check_output(["git", "-C", "/repo", "rev-parse", "HEAD"], text
 subprocess.run(["git", "-C", W, "checkout", "-q", "--detach", head])
 bad = 0
 import glob
-patches = sys.argv[1:] or sorted(glob.glob(V + "/benign/*/patch.diff"))     # default: the whole kept corpus
+patches = [os.path.abspath(x) for x in sys.argv[1:]] or sorted(glob.glob(V + "/benign/*/patch.diff"))     # default: the whole kept corpus
 for patch in patches:
     subprocess.run(["git", "-C", W, "checkout", "-q", "--", "."])
     if subprocess.run(["git", "-C", W, "apply", patch]).returncode != 0:
